@@ -585,6 +585,24 @@ fn main() {
             };
             run_spec(&ut, &mut out);
             id += 1;
+            // deep shrink: an object whose height falls from 1e4 by 4% (10%) per frame - the regime in which the
+            // f32 covariance loses symmetry / positive definiteness (reported under its own key)
+            // (start height, frames of growth by 5%, shrink factor per frame, frames of shrinking):
+            // x3500 in 200 frames, x7700 in 85, x1e4 in 200, and growing 10 -> 9000 then shrinking back to 1
+            for (h0, grow, scale, frames) in [(10000.0f64, 0usize, 0.96f64, 200usize), (10000.0, 0, 0.9, 85), (10000.0, 0, 0.955, 200), (10.0, 140, 0.95, 180)] {
+                let (mut x, y, mut h) = (5000.0f64, 5000.0f64, h0);
+                let z0 = vec![x as f32, y as f32, 0.0, 0.5, h as f32];
+                let mut ops = vec![];
+                for f in 0..(grow + frames) {
+                    x = (x + h * 0.05).min(10000.0);
+                    h = if f < grow { (h * 1.05).min(10000.0) } else { (h * scale).max(1.0) };
+                    ops.push(Op::P);
+                    ops.push(Op::U(vec![vec![x as f32, y as f32, 0.0, 0.5, h as f32]]));
+                }
+                let s = Spec { id, ty: "box".into(), kind: "deep-shrink".into(), wp: 1.0 / 20.0, wv: 1.0 / 160.0, rot: false, z0: vec![z0], ops };
+                run_spec(&s, &mut out);
+                id += 1;
+            }
             for k in 0..a.n {
                 let s = gen_box(&mut rng, id, k as u64, 400, false);
                 run_spec(&s, &mut out);
